@@ -6,14 +6,15 @@ output vs input under the Coq evaluator; (c) the property itself on the implemen
 -O1..-O3 vs -O0 (class, output, value; with the statement's one permitted relaxation)."""
 import collections, os, re
 import vlib
-from gen import proggen
+from gen import proggen, unusedgen
 from props import c02
 
 TRUSTED = c02.TRUSTED + [
     "tools/extractors/c01.py transcribes the folder's INT_MIN/INT_MAX/MAX_FOLDED_STRING_LEN and the pass pipeline per level",
     "coq/Model/VmArith.v (hand model of the VM's generic arithmetic on NaN-boxed words, tied to the real dispatch loop by C06's hx_vmop) for C01_fold_equals_vm_runtime",
     "coq/Model/Opt/Fold.v is a hand model of opt/src/passes/constant_fold (int/bool/string kernels and traversal; float folding not modelled); "
-    "the other passes (inliner, local/global const-prop, DCE, unused-vars) are NOT modelled: they are validated per program, not proved",
+    "coq/Model/Opt/Dce.v and coq/Model/Opt/Unused.v are hand models of dead_code and unused_vars, each tied by exact equality of the output AST with the real pass on every generated program; "
+    "the inliner and the local/global constant propagators are NOT modelled: they are validated per program, not proved",
 ]
 
 OPS = "BAdd BSub BMul BDiv BMod BEq BNe BLt BLe BGt BGe BShl BShr BBitAnd BBitOr BBitXor".split()
@@ -150,13 +151,57 @@ def dce_tie(ctx, progs, res):
 
 
 
+OPAQUE = re.compile(r'\(EOther "(range|slice|struct|cast)"\)')
+
+
+def unused_tie(ctx, progs, res):
+    """Fidelity of Model/Opt/Unused.v: the model pass, evaluated inside Coq on the typed AST the real
+    front end produced, must give exactly the AST the real UnusedVarEliminator produces from it.
+    Skipped (counted): programs with a `pub let` (not represented in Model/Lang.v) and programs
+    whose dump lost subexpressions (range / slice / struct literal / cast)."""
+    cases, idx, skipped = [], [], collections.Counter()
+    for i in range(len(progs)):
+        a = res.get(i, {}).get("ast", {})
+        out = a.get("pass:unused")
+        if "in" not in a or not out:
+            continue
+        if out.startswith("PANIC"):
+            ctx.violation("c01:unused-panic", "the unused-variable elimination pass panics", {"program": progs[i], "panic": out})
+            continue
+        if re.search(r"\bpub\s+let\b", progs[i]):
+            skipped["pub-let"] += 1
+            continue
+        if OPAQUE.search(a["in"]):
+            skipped["opaque-subexpression"] += 1
+            continue
+        cases.append(f"{a['in']} {out}")
+        idx.append(i)
+    codes, err = vlib.coq_eval_codes("c01un", "From Aelys Require Import Model.Lang Model.Opt.UnusedObs.", "unused_fid", cases, shard=80)
+    if err:
+        ctx.broken.append("correspondence C01: unused-variable model evaluation failed")
+        ctx.log(err[-2000:])
+    cc = collections.Counter(c for c in codes if c is not None)
+    differs = [idx[k] for k, c in enumerate(codes) if c == 1]
+    if differs:
+        ctx.broken.append(f"correspondence C01: Model/Opt/Unused.v differs from the real unused-variable pass on {len(differs)} of {len(cases)} programs")
+        ctx.cov["unused_model_differs_example"] = {"program": progs[differs[0]][:3000],
+                                                   "real_pass_output": res[differs[0]]["ast"]["pass:unused"][:3000]}
+    if cases and cc.get(0, 0) < max(5, len(cases) // 50):
+        ctx.broken.append(f"correspondence C01: the unused-variable tie is starved (the pass deletes something in only {cc.get(0, 0)} of {len(cases)} programs)")
+    ctx.cov["unused_model_tie"] = {"programs": len(cases), "model_equals_real_pass_and_deletes": cc.get(0, 0),
+                                   "model_equals_real_pass_nothing_deleted": cc.get(2, 0), "model_differs_from_real_pass": cc.get(1, 0),
+                                   "skipped": dict(skipped)}
+    ctx.cov["evaluations"] = ctx.cov.get("evaluations", 0) + len(cases)
+    ctx.log(f"unused-variable model tie: {dict(cc)} skipped {dict(skipped)}")
+
+
 def run(ctx):
     ctx.level = "proof"
     ctx.cov["trusted_base"] = TRUSTED
     proved = ctx.prove("C01", extracted=["OptConsts", "ValueConsts", "Opcodes"])
     if ctx.tier == "thorough" and proved:
         ctx.coqchk("C01")
-    ok, out = vlib.coq_make(["Model/EvalObs.vo", "Model/Opt/FoldObs.vo", "Model/Opt/DceObs.vo"])
+    ok, out = vlib.coq_make(["Model/EvalObs.vo", "Model/Opt/FoldObs.vo", "Model/Opt/DceObs.vo", "Model/Opt/UnusedObs.vo"])
     if not ok:
         ctx.broken.append("coq: model files for the C01 ties do not build")
         ctx.log(out[-2000:])
@@ -166,15 +211,17 @@ def run(ctx):
     n = 400 if ctx.tier == "quick" else 6000
     progs, feats = proggen.generate(ctx.seed * 7919 + 1, n)
     corpus = c02.load_corpus("C01")
-    progs = corpus + progs
-    feats = [["corpus"]] * len(corpus) + feats
+    uprogs, ufeats = unusedgen.generate(ctx.seed * 104729 + 7, 160 if ctx.tier == "quick" else 2500)
+    progs = corpus + progs + uprogs
+    feats = [["corpus"]] * len(corpus) + feats + [["unusedgen"] + ["unused:" + x for x in f] for f in ufeats]
     rp = c02.replay_program(ctx)
     if rp is not None:
         progs, feats = [rp], [["replay"]]
-    res = c02.run_stream(ctx, progs, passes="dce")
+    res = c02.run_stream(ctx, progs, passes="dce,unused")
     if res is None:
         return
     dce_tie(ctx, progs, res)
+    unused_tie(ctx, progs, res)
     cases, idx = [], []
     dist, featc = collections.Counter(), collections.Counter()
     impl_bad = 0
